@@ -42,9 +42,54 @@ def rule_predicates(ctx) -> None:
                 if out.value != (s <= a < e) and cex is None:
                     cex = (s, e, a, out.value)
     chk.decide(cex is None, "C13.range-predicates", ir.qual, "half-open: start <= addr < end", f"{cex}", "", A.loc(BEE, ir.node))
+    # encrypt_block evaluated on models of a region block with two FAC regions (methods of the model objects are stepped into, so
+    # helper methods on either class, early returns and loop shape do not matter)
     eb = ctx.own(BEE, "BeeProtectRegionBlock", "encrypt_block")
-    t = norm(eb.node)
-    chk.decide("if fac.start_addr <= start_addr < fac.end_addr:" in t and "if start_addr + len(data) > fac.end_addr:" in t, "C13.range-predicates", eb.qual, "FAC region test is half-open and a block may not cross the region end", "", "", A.loc(BEE, eb.node))
+    blk_cls, fac_cls = ctx.cls(BEE, "BeeProtectRegionBlock"), ctx.cls(BEE, "BeeFacRegion")
+    KEY = bytes(range(0x11, 0x21))
+
+    def cv_bee(c: ast.Call, ev):
+        if norm(c.func) == "align_block_fill_random" and c.args:
+            al = A.arg_of(c, 1, "alignment")
+            d = bytes(ev.ev(c.args[0]))
+            return d + b"R" * ((-len(d)) % (ev.ev(al) if al is not None else 4))
+        return _cv_loop(c, ev)
+    sym_map = {"BeeProtectRegionBlockAesMode.CTR": "CTR", "BeeProtectRegionBlockAesMode.ECB": "ECB"}
+    cv = ctx.model_calls(cv_bee, sym_map)
+    probs, n_models = [], 0
+    facs = ((0x1000, 0x400), (0x1800, 0x400))  # [0x1000,0x1400) and [0x1800,0x1C00) inside the region [0x0800, 0x2000)
+    for mode in ("CTR", "ECB"):
+        for klen in (16, 24):
+            for addr, L in ((0x0400, 16), (0x0800, 16), (0x0FF0, 16), (0x1000, 16), (0x1000, 5), (0x13F0, 16), (0x13F8, 16), (0x1400, 16), (0x1800, 0x400), (0x1BF0, 32), (0x1C00, 16), (0x2000, 16), (0x1000, 0x401)):
+                me = Obj(_cls=blk_cls, _start_addr=0x0800, _end_addr=0x2000, mode=mode, counter=b"CNTR",
+                         fac_regions=tuple(Obj(_cls=fac_cls, start_addr=s_, length=l_, protected_level=0) for s_, l_ in facs))
+                data = bytes((11 * i + 5) & 0xFF for i in range(L))
+                try:
+                    out = ordereval.Evaluator({"self": me, "key": KEY[:klen] + bytes(max(0, klen - 16)), "start_addr": addr, "data": data}, ctx.fold_sym(eb, sym_map), opaque_return=False, call_value=cv).run(A.body_of(eb.node))
+                except ordereval.Unsupported as ex:
+                    raise AnalysisError(f"C13.range-predicates: BeeProtectRegionBlock.encrypt_block left the fragment: {ex}")
+                n_models += 1
+                key = KEY[:klen] + bytes(max(0, klen - 16))
+                fac = next(((s_, s_ + l_) for s_, l_ in facs if s_ <= addr < s_ + l_), None)
+                inside = 0x0800 <= addr < 0x2000
+                if L > 0x400:
+                    want_k, want_v = "raise", None
+                elif not inside:
+                    want_k, want_v = "return", data
+                elif mode != "CTR" or klen != 16:
+                    want_k, want_v = "raise", None
+                elif fac is None:
+                    want_k, want_v = "return", data
+                elif addr + L > fac[1]:
+                    want_k, want_v = "raise", None
+                else:
+                    pad = data + b"R" * ((-L) % 16)
+                    want_k, want_v = "return", _ks("CTR", key, ("CV", b"CNTR", addr >> 4, "Endianness.BIG"), pad)
+                got_v = bytes(out.value) if isinstance(out.value, (bytes, bytearray)) else out.value
+                if out.kind != want_k or (want_k == "return" and got_v != want_v):
+                    probs.append(f"mode {mode} key {klen} addr {addr:#x} len {L:#x}: {out.kind}{'' if out.kind != 'return' else ' ' + ('plain' if got_v == data else 'other')}, expected {want_k}{'' if want_k != 'return' else ' ' + ('plain' if want_v == data else 'encrypted with counter addr >> 4')}")
+    chk.decide(not probs, "C13.range-predicates", eb.qual, f"a block is encrypted (AES-CTR, counter = address >> 4, big endian) exactly when it starts inside the region and inside a FAC region [start, end); a block crossing the FAC end, another mode or key size is rejected; other blocks pass unchanged ({n_models} models)",
+               "; ".join(probs[:3]), "", A.loc(BEE, eb.node))
 
 
 def _image_model(ctx, fn, unit: int, blobs: List[Tuple[int, int, bool]], base: int, length: int, inclusive: bool, args: Dict[str, Any]):
@@ -87,6 +132,59 @@ def _image_model(ctx, fn, unit: int, blobs: List[Tuple[int, int, bool]], base: i
     return out, recs
 
 
+import hashlib as _hl  # noqa: E402
+
+
+def _ks(tag, key, state, data: bytes) -> bytes:
+    stream = b""
+    i = 0
+    while len(stream) < len(data):
+        stream += _hl.sha256(repr((tag, key, state, i)).encode()).digest()
+        i += 1
+    return bytes(a ^ b for a, b in zip(data, stream))
+
+def _rev(x: bytes) -> bytes:
+    return bytes(b ^ 0x5A for b in x)
+
+def _cv_loop(c: ast.Call, ev):
+    f = norm(c.func)
+    if f == "align_block" and c.args:
+        al = A.arg_of(c, 1, "alignment")
+        d = bytes(ev.ev(c.args[0]))
+        n_ = ev.ev(al) if al is not None else 4
+        return d + bytes((-len(d)) % n_)
+    if f == "Counter" and c.args:
+        kw = {k.arg: k.value for k in c.keywords}
+        ctr = ev.ev(kw["ctr_value"]) if "ctr_value" in kw else 0
+        order = norm(kw["ctr_byteorder_encoding"]) if "ctr_byteorder_encoding" in kw else "Endianness.LITTLE"
+        o = Obj(_counter=True, nonce=ev.ev(c.args[0]), ctr=ctr & 0xFFFFFFFF, order=order)
+        o.__dict__["value"] = ("CV", o.__dict__["nonce"], o.__dict__["ctr"], order)
+        return o
+    if isinstance(c.func, ast.Attribute) and c.func.attr == "increment" and len(c.args) <= 1:
+        o = ev.ev(c.func.value)
+        if isinstance(o, Obj) and "_counter" in o.__dict__:
+            o.__dict__["ctr"] = (o.__dict__["ctr"] + (ev.ev(c.args[0]) if c.args else 1)) & 0xFFFFFFFF
+            o.__dict__["value"] = ("CV", o.__dict__["nonce"], o.__dict__["ctr"], o.__dict__["order"])
+            return None
+    if f == "self._get_ctr_nonce" and not c.args:
+        return b"NONCE"
+    if f == "self.matches_range":
+        return True
+    if f == "reverse_bytes_in_longs" and len(c.args) == 1:
+        return _rev(bytes(ev.ev(c.args[0])))
+    if f == "split_data" and len(c.args) + len(c.keywords) == 2:
+        d = bytes(ev.ev(c.args[0]))
+        n_ = ev.ev(A.arg_of(c, 1, "size"))
+        return tuple(d[i:i + n_] for i in range(0, len(d), n_))
+    if f == "aes_ctr_encrypt" and len(c.args) + len(c.keywords) == 3:
+        return _ks("CTR", bytes(ev.ev(A.arg_of(c, 0, "key"))), ev.ev(A.arg_of(c, 2, "nonce")), bytes(ev.ev(A.arg_of(c, 1, "plain_data"))))
+    if f == "aes_xts_encrypt" and len(c.args) + len(c.keywords) == 3:
+        return _ks("XTS", bytes(ev.ev(A.arg_of(c, 0, "key"))), ev.ev(A.arg_of(c, 2, "tweak")), bytes(ev.ev(A.arg_of(c, 1, "plain_data"))))
+    if f == "self.calculate_tweak" and len(c.args) == 1:
+        return ("TWEAK", ev.ev(c.args[0]))
+    return ordereval.NOT_MODELLED
+
+
 def rule_image_loops(ctx) -> None:
     chk = ctx.chk
     U = 4
@@ -120,32 +218,75 @@ def rule_image_loops(ctx) -> None:
                    f"exactly the blocks lying completely inside a (valid) key blob are replaced, in place at their own offset" + (", each keyed with its absolute address as counter" if inclusive else "") + f"; all other bytes stay ({n} layouts incl. exact fit, overhang, miss)",
                    f"base {cex[0]}, length {cex[1]}, blob {cex[2]} encrypted={cex[3]}: encrypted blocks {cex[4]}" if cex else "", f"{cex[5]}" if cex else "", A.loc(rp, fn.node))
     # per-blob cipher loops: bytes per iteration = counter advance x counter unit
+    # The three cipher loops are evaluated on a model: the block cipher is a keystream that depends on (mode, key, counter/tweak state),
+    # Counter is an object with a 32-bit value, helper transforms are injective stand-ins.  What must come out is the reference
+    # construction below - however the loop, the slices and the temporaries are written.
+    def run_model(fn, env):
+        try:
+            return ordereval.Evaluator(env, ctx.fold_sym(fn), opaque_return=False, call_value=_cv_loop).run(A.body_of(fn.node))
+        except ordereval.Unsupported as ex:
+            raise AnalysisError(f"C13.stride-unit: {fn.qual} left the fragment: {ex}")
     ke = ctx.own(OTFAD, "KeyBlob", "encrypt_image")
-    t = norm(ke.node)
-    ok = "for index in range(0, data_len, 16):" in t and "counter.increment(16)" in t and "Counter(self._get_ctr_nonce(), ctr_value=counter_value, ctr_byteorder_encoding=Endianness.BIG)" in t and "data_2_encr = data[index:index + 16]" in t
-    chk.decide(ok, "C13.stride-unit", ke.qual, "OTFAD: 16 bytes per block, byte-address counter advanced by 16, counter starts at the block's address", "", "", A.loc(OTFAD, ke.node))
-    chk.decide("if not counter_value: counter_value = self.start_addr" in t.replace("\n", " ").replace("    ", " ").replace("  ", " ") or ("counter_value = self.start_addr" in t), "C13.stride-unit", ke.qual + " default", "without an explicit counter the blob's start address is used", "", "", A.loc(OTFAD, ke.node))
+    KEY = bytes(range(0x30, 0x40))
+    probs, n_models = [], 0
+    for base in (0x1000, 0x1008):
+        for L in (0, 16, 40):
+            for swap in (False, True):
+                for cval in (None, 0, 0x3000, 0xFFFFFFF0):
+                    data = bytes((7 * i + 3) & 0xFF for i in range(L))
+                    out = run_model(ke, {"self": Obj(key=KEY, start_addr=0x2000), "base_address": base, "data": data, "byte_swap": swap, "counter_value": cval})
+                    n_models += 1
+                    if base % 16:
+                        if out.kind != "raise":
+                            probs.append(f"unaligned base {base:#x} accepted")
+                        continue
+                    dal = data + bytes((-L) % 16)
+                    c0 = cval or 0x2000
+                    want_b = b""
+                    for i in range(0, len(dal), 16):
+                        blk = dal[i:i + 16]
+                        if swap:
+                            blk = blk[7::-1] + blk[15:7:-1]
+                        enc = _ks("CTR", KEY, ("CV", b"NONCE", (c0 + i) & 0xFFFFFFFF, "Endianness.BIG"), blk)
+                        want_b += (enc[7::-1] + enc[15:7:-1]) if swap else enc
+                    if not (out.kind == "return" and bytes(out.value) == want_b):
+                        probs.append(f"base {base:#x} len {L} swap {swap} counter {cval}: {out.kind}, differs from the reference construction")
+    chk.decide(not probs, "C13.stride-unit", ke.qual, f"OTFAD: 16 bytes per block, big-endian byte-address counter advanced by 16 per block, starting at the given counter or the blob's start address; optional swap of both 8-byte halves before and after ({n_models} models)", "; ".join(probs[:3]), "", A.loc(OTFAD, ke.node))
+    chk.decide(not [p_ for p_ in probs if "counter None" in p_ or "counter 0:" in p_], "C13.stride-unit", ke.qual + " default", "without an explicit counter the blob's start address is used", "", "", A.loc(OTFAD, ke.node))
     ic = ctx.own(IEE, "IeeKeyBlob", "encrypt_image_ctr")
-    t = norm(ic.node)
-    ok = "Counter(nonce, ctr_value=base_address >> 4, ctr_byteorder_encoding=Endianness.BIG)" in t and "counter.increment(self._ENCRYPTION_BLOCK_SIZE >> 4)" in t and "split_data(bytearray(data), self._ENCRYPTION_BLOCK_SIZE)" in t
-    chk.decide(ok, "C13.stride-unit", ic.qual, "IEE-CTR: counter counts 16-byte units: starts at address >> 4 and advances by block size >> 4 per block", "", "", A.loc(IEE, ic.node))
+    K1, K2 = bytes(range(0x50, 0x60)), bytes(range(0x70, 0x80))
+    probs, n_models = [], 0
+    for base in (0x0, 0x1000, 0x12345000):
+        for L in (0, 16, 48, 0x1010):
+            data = bytes((5 * i + 1) & 0xFF for i in range(L))
+            out = run_model(ic, {"self": Obj(key1=K1, key2=K2), "base_address": base, "data": data})
+            n_models += 1
+            want_b = b"".join(_ks("CTR", _rev(K1), ("CV", _rev(K2), ((base >> 4) + i // 16) & 0xFFFFFFFF, "Endianness.BIG"), data[i:i + 16]) for i in range(0, L, 16))
+            if not (out.kind == "return" and bytes(out.value) == want_b):
+                probs.append(f"base {base:#x} len {L}: {out.kind}, differs from the reference construction")
+    chk.decide(not probs, "C13.stride-unit", ic.qual, f"IEE-CTR: counter counts 16-byte units: starts at address >> 4 and advances by one unit per 16-byte block ({n_models} models)", "; ".join(probs[:3]), "", A.loc(IEE, ic.node))
     ix = ctx.own(IEE, "IeeKeyBlob", "encrypt_image_xts")
-    t = norm(ix.node)
-    ok = "split_data(bytearray(data), self._IEE_ENCR_BLOCK_SIZE_XTS)" in t and "tweak = self.calculate_tweak(current_start)" in t and "current_start += len(block)" in t and "current_start = base_address" in t
-    chk.decide(ok, "C13.stride-unit", ix.qual, "IEE-XTS: tweak from the running absolute address, advanced by the bytes consumed", "", "", A.loc(IEE, ix.node))
+    probs, n_models = [], 0
+    for base in (0x0, 0x3000, 0x12345000):
+        for L in (0, 0x1000, 0x2800):
+            data = bytes((3 * i + 2) & 0xFF for i in range(L))
+            out = run_model(ix, {"self": Obj(key1=K1, key2=K2), "base_address": base, "data": data})
+            n_models += 1
+            want_b = b"".join(_ks("XTS", _rev(K1) + _rev(K2), ("TWEAK", base + i), data[i:i + 0x1000]) for i in range(0, L, 0x1000))
+            if not (out.kind == "return" and bytes(out.value) == want_b):
+                probs.append(f"base {base:#x} len {L:#x}: {out.kind}, differs from the reference construction")
+    chk.decide(not probs, "C13.stride-unit", ix.qual, f"IEE-XTS: 4 KiB data units, tweak from the running absolute address advanced by the bytes consumed, key = key1 || key2 ({n_models} models)", "; ".join(probs[:3]), "", A.loc(IEE, ix.node))
     kb = ctx.cls(IEE, "IeeKeyBlob")
     xs = ctx.prog.fold(kb.consts.get("_IEE_ENCR_BLOCK_SIZE_XTS"), kb.module, kb)
     ct = ctx.own(IEE, "IeeKeyBlob", "calculate_tweak")
     cex = None
     for addr in (0, 0x1000, 0x1FFF, 0x2000, 0x12345000, 0xFFFFF000):
-        out = ordereval.Evaluator({"address": addr}, opaque_return=False).run(A.body_of(ct.node))
+        out = ordereval.Evaluator({"address": addr}, ctx.fold_sym(ct), opaque_return=False).run(A.body_of(ct.node))
         want = (addr >> 12).to_bytes(16, "little")
         if not (out.kind == "return" and bytes(out.value) == want) and cex is None:
             cex = (hex(addr), out.value)
     chk.decide(cex is None and xs == 0x1000, "C13.stride-unit", ct.qual, "tweak = sector number (address >> 12) little-endian in 16 bytes; XTS data unit = 4 KiB", f"{cex} unit {xs}", "", A.loc(IEE, ct.node))
-    be = ctx.own(BEE, "BeeProtectRegionBlock", "encrypt_block")
-    t = norm(be.node)
-    chk.decide("ctr_value=start_addr >> 4" in t and "ctr_byteorder_encoding=Endianness.BIG" in t and "aes_ctr_encrypt(key, data, cntr_key.value)" in t, "C13.stride-unit", be.qual, "BEE: counter = address >> 4 (16-byte units), per block", "", "", A.loc(BEE, be.node))
+    # (BEE: the per-block counter = address >> 4 is part of the encrypt_block model in rule_predicates)
 
 
 def rule_keyblob_layout(ctx) -> None:
@@ -153,36 +294,105 @@ def rule_keyblob_layout(ctx) -> None:
     pd = ctx.own(OTFAD, "KeyBlob", "plain_data")
     kcls = ctx.cls(OTFAD, "KeyBlob")
     fold = lambda e: prog.fold(e, pd.module, kcls)  # noqa: E731
-    body = A.body_of(pd.node)
-    idx = next((i for i, s in enumerate(body) if isinstance(s, ast.Assign) and norm(s.targets[0]) == "header_crc"), None)
-    if idx is None:
-        raise AnalysisError("C13.wire: header_crc assignment not found in KeyBlob.plain_data")
-    lay = bytelayout.Layout(fold, pd.node)
-    lay.run(body[:idx])
-    pre = [f for f in lay.env.get("result", []) if f.size != 0]
-    sizes = [f.size for f in pre]
-    srcs = [f.src for f in pre]
-    ok = sizes == [None, None, 4, 4] and srcs[:2] == ["self.key", "self.ctr_init_vector"] and pre[2].src == "self.start_addr" and pre[2].order == "little"
+    import struct as _struct
+    import zlib as _zlib
     kc = fold(kcls.consts.get("KEY_SIZE")), fold(kcls.consts.get("CTR_SIZE"))
-    chk.decide(ok and kc == (16, 8), "C13.wire", pd.qual + " CRC input", "CRC covers key (16) | counter (8) | start (LE) | end-with-flags (LE) = the first 32 bytes", f"fields before the CRC: {[f.desc() for f in pre]}, key/ctr sizes {kc}", "", A.loc(OTFAD, pd.node))
-    crc = norm(body[idx].value)
-    chk.decide(crc == "from_crc_algorithm(CrcAlg.CRC32_MPEG).calculate(result).to_bytes(4, Endianness.LITTLE.value)", "C13.wire", pd.qual + " CRC", "CRC-32/MPEG-2, little-endian", crc, "", A.loc(OTFAD, pd.node))
-    lay2 = bytelayout.Layout(fold, pd.node)
-    res = lay2.run(body)
-    tail = [f.desc() for f in [x for x in (res or []) if x.size != 0][4:]]
-    total_guard = any(isinstance(s, ast.If) and norm(s.test) == "len(result) != 64" and A.always_raises(s.body) for s in body)
-    chk.decide(total_guard and len(tail) >= 3, "C13.wire", pd.qual + " size", "blob is 64 bytes: 32 covered + zero-fill 4 + CRC 4 + 8 + 16", f"{tail}", "", A.loc(OTFAD, pd.node))
-    ea = A.single_def(pd.node, "end_addr_with_flags") if False else None
-    t = norm(pd.node)
-    chk.decide("end_addr_with_flags = (self.end_addr - 1 & ~self._KEY_FLAG_MASK | self.key_flags | self._END_ADDR_MASK)" in t.replace("(self.end_addr - 1)", "self.end_addr - 1") or "self.end_addr - 1 & ~self._KEY_FLAG_MASK | self.key_flags | self._END_ADDR_MASK" in t, "C13.wire", pd.qual + " end word", "end word = (end-1 with low bits forced) | flags", "", "", A.loc(OTFAD, pd.node))
+    masks = fold(kcls.consts.get("_KEY_FLAG_MASK")), fold(kcls.consts.get("_END_ADDR_MASK"))
+    chk.decide(kc == (16, 8) and masks == (0x07, 0x3F8), "C13.wire", pd.qual + " constants", "key 16 bytes, counter 8 bytes, flag mask 0x07, end-address mask 0x3F8", f"{kc} {masks}", "", A.loc(OTFAD, kcls.node))
+
+    def crc_model(alg: str, data: bytes) -> int:
+        return _zlib.crc32(alg.encode() + b"|" + data)  # a stand-in: only (algorithm, covered bytes) -> value matters
+
+    def cv_common(c: ast.Call, ev):
+        f = norm(c.func)
+        if f in ("pack", "struct.pack") and c.args and not c.keywords:
+            try:
+                return _struct.pack(ev.ev(c.args[0]), *[ev.ev(a) for a in c.args[1:]])
+            except _struct.error:
+                raise ordereval.Unsupported(c, "struct.error on the model")
+        if f == "from_crc_algorithm" and len(c.args) == 1:
+            return Obj(_crc=norm(c.args[0]))
+        if isinstance(c.func, ast.Attribute) and c.func.attr == "calculate" and len(c.args) == 1:
+            o = ev.ev(c.func.value)
+            if isinstance(o, Obj) and "_crc" in o.__dict__:
+                return crc_model(o.__dict__["_crc"], bytes(ev.ev(c.args[0])))
+        if isinstance(c.func, ast.Attribute) and c.func.attr == "to_bytes" and not isinstance(c.func.value, ast.Name):
+            v = ev.ev(c.func.value)
+            if isinstance(v, int) and not isinstance(v, bool):
+                return v.to_bytes(ev.ev(A.arg_of(c, 0, "length")), ev.ev(A.arg_of(c, 1, "byteorder")))
+        if f == "random_bytes" and len(c.args) == 1:
+            return b"R" * ev.ev(c.args[0])
+        return ordereval.NOT_MODELLED
+    # KeyBlob.plain_data evaluated on models: (range/flags present?) x (zero fill given / wrong size / absent) x (crc fill ...)
+    probs = []
+    n_models = 0
+    K, CIV = bytes(range(1, 17)), bytes(range(0x21, 0x29))
+    sym_pd = ctx.fold_sym(pd, {"Endianness.LITTLE.value": "little", "Endianness.BIG.value": "big"})
+    for end, flags in ((0x2400, 3), (0x2400, 0), (0, 0)):  # (end 0 with flags is rejected by the constructor)
+        for zf in (b"", b"ZZZZ", b"ZZ"):
+            for cf in (b"", b"CCCC", b"CCCCC"):
+                me = Obj(key=K, ctr_init_vector=CIV, start_addr=0x1000, end_addr=end, key_flags=flags, zero_fill=zf, crc_fill=cf)
+                try:
+                    out = ordereval.Evaluator({"self": me}, sym_pd, opaque_return=False, call_value=cv_common).run(A.body_of(pd.node))
+                except ordereval.Unsupported as ex:
+                    raise AnalysisError(f"C13.wire: KeyBlob.plain_data left the fragment: {ex}")
+                n_models += 1
+                if len(zf) not in (0, 4) or len(cf) not in (0, 4):
+                    if out.kind != "raise":
+                        probs.append(f"zero_fill {zf!r} / crc_fill {cf!r} of a wrong size is accepted")
+                    continue
+                ew = (((end - 1) & ~0x07) | flags | 0x3F8) if (end or flags) else 0
+                head = K + CIV + _struct.pack("<II", 0x1000, ew)
+                want_b = head + (zf or b"RRRR") + (cf or crc_model("CrcAlg.CRC32_MPEG", head).to_bytes(4, "little")) + bytes(24)
+                if not (out.kind == "return" and bytes(out.value) == want_b):
+                    got_b = bytes(out.value).hex() if out.kind == "return" and isinstance(out.value, (bytes, bytearray)) else out.kind
+                    probs.append(f"end {end:#x} flags {flags} zero_fill {zf!r} crc_fill {cf!r}: {got_b} != {want_b.hex()}")
+    chk.decide(not probs, "C13.wire", pd.qual, f"64-byte blob: key | counter | start (LE) | end-with-flags (LE) | zero fill or 4 random | CRC-32/MPEG-2 (LE) of those first 32 bytes or the given CRC fill | 24 zero bytes ({n_models} models)",
+               "; ".join(probs[:2]), "", A.loc(OTFAD, pd.node))
+    # KeyBlob.export: RFC 3394 wrap of the first 40 bytes, optional byte swap in groups, zero padded to 64
     ex = ctx.own(OTFAD, "KeyBlob", "export")
-    t = norm(ex.node)
-    ok = "wrap = aes_key_wrap(kek, plaintext[:40])" in t and "align_block(blobs, self._EXPORT_KEY_BLOB_SIZE, padding=0)" in t and "blobs += wrap[i:i + byte_swap_cnt][::-1]" in t
-    chk.decide(ok, "C13.wire", ex.qual, "RFC 3394 wrap of the first 40 bytes (5 x 64 bit) with the KEK, optional byte swap in groups, padded to 64", "", "", A.loc(OTFAD, ex.node))
+    probs = []
+    PT = bytes(range(0x40, 0x80))
+
+    def cv_ex(c: ast.Call, ev):
+        f = norm(c.func)
+        if f == "self.plain_data" and not c.args:
+            return PT
+        if f == "aes_key_wrap" and len(c.args) + len(c.keywords) == 2:
+            return b"W" + ev.ev(A.arg_of(c, 0, "kek"))[:3] + ev.ev(A.arg_of(c, 1, "key_to_wrap") if A.arg_of(c, 1, "key_to_wrap") is not None else c.args[1]) + b"wwww"
+        if f == "bytes.fromhex" and len(c.args) == 1:
+            return bytes.fromhex(ev.ev(c.args[0]))
+        if f == "align_block" and c.args:
+            al, pad = A.arg_of(c, 1, "alignment"), A.arg_of(c, 2, "padding")
+            d = bytes(ev.ev(c.args[0]))
+            n = ev.ev(al) if al is not None else 4
+            pv = ev.ev(pad) if pad is not None else 0
+            if not isinstance(pv, int):
+                return ordereval.NOT_MODELLED
+            return d + bytes([pv]) * ((-len(d)) % n)
+        return cv_common(c, ev)
+    sym_ex = ctx.fold_sym(ex)
+    for kek in (bytes(range(16)), bytes(range(16)).hex(), bytes(5)):
+        for swap in (0, 4, 8):
+            try:
+                out = ordereval.Evaluator({"self": Obj(), "kek": kek, "iv": bytes([0xA6] * 8), "byte_swap_cnt": swap}, sym_ex, opaque_return=False, call_value=cv_ex).run(A.body_of(ex.node))
+            except ordereval.Unsupported as e2:
+                raise AnalysisError(f"C13.wire: KeyBlob.export left the fragment: {e2}")
+            if kek == bytes(5):
+                if out.kind != "raise":
+                    probs.append("a 5-byte KEK is accepted")
+                continue
+            wrap = b"W" + bytes(range(16))[:3] + PT[:40] + b"wwww"
+            if swap:
+                wrap = b"".join(wrap[i:i + swap][::-1] for i in range(0, len(wrap), swap))
+            want_b = wrap + bytes((-len(wrap)) % 64)
+            if not (out.kind == "return" and bytes(out.value) == want_b):
+                probs.append(f"kek {'hex' if isinstance(kek, str) else 'bytes'}, swap {swap}: {out.kind} {bytes(out.value).hex() if isinstance(out.value, (bytes, bytearray)) else out.value}")
+    chk.decide(not probs, "C13.wire", ex.qual, "RFC 3394 wrap of the first 40 bytes (5 x 64 bit) with the KEK, optional byte swap in groups, padded to 64", "; ".join(probs[:2]), "", A.loc(OTFAD, ex.node))
     nn = ctx.own(OTFAD, "KeyBlob", "_get_ctr_nonce")
     cex = None
     civ = bytes(range(1, 9))
-    out = ordereval.Evaluator({"self": Obj(ctr_init_vector=civ)}, opaque_return=False).run(A.body_of(nn.node))
+    out = ordereval.Evaluator({"self": Obj(ctr_init_vector=civ)}, ctx.fold_sym(nn), opaque_return=False).run(A.body_of(nn.node))
     want = civ[:4] + civ[4:] + bytes(a ^ b for a, b in zip(civ[:4], civ[4:])) + bytes(4)
     chk.decide(out.kind == "return" and bytes(out.value) == want, "C13.wire", nn.qual, "nonce = CTR[0:4] | CTR[4:8] | CTR[0:4]^CTR[4:8] | 0 (32-bit block counter)", f"{out.value}", f"{want}", A.loc(OTFAD, nn.node))
     # IEE plain data: CRC over everything before it
